@@ -3,6 +3,8 @@ package main
 import (
 	"fmt"
 	"go/ast"
+	"go/token"
+	"go/types"
 	"sort"
 	"strings"
 )
@@ -88,3 +90,82 @@ func rulePkgTwins(prog *Program, rep *Report, relA, relB string, floor int) {
 		rep.Errorf("K-pkgtwins compared %d function pairs of %s and %s (floor %d)", compared, relA, relB, floor)
 	}
 }
+
+// ruleTightAppendTwins: K-omitguards. Each writer has a compact and an indented emitter for the
+// same kind of value (tightMap / appendMap, tightStruct / appendStruct, tightSlice / appendSlice,
+// tightObject / appendObject, ...). Which members are omitted must not depend on the layout:
+// the conditions under which a twin skips a member (`if cond { continue }`) are the same
+// multiset in both.
+func ruleTightAppendTwins(prog *Program, rep *Report, rels ...string) {
+	rep.Rules = append(rep.Rules, "K-omitguards: the compact and the indented emitter of one writer for the same kind of value (tightX / appendX) skip members under the same conditions (multiset of the conditions of `if cond { continue }`): what is omitted does not depend on the layout")
+	pairs := 0
+	for _, rel := range rels {
+		pk := prog.Pkg(rel)
+		if pk == nil {
+			continue
+		}
+		guards := map[string][]string{}
+		decls := map[string]*ast.FuncDecl{}
+		for _, f := range pk.Syntax {
+			if strings.HasSuffix(prog.Fset.Position(f.Pos()).Filename, "_test.go") {
+				continue
+			}
+			for _, d := range f.Decls {
+				fd, ok := d.(*ast.FuncDecl)
+				if !ok || fd.Body == nil {
+					continue
+				}
+				name := fd.Name.Name
+				if !strings.HasPrefix(name, "tight") && !strings.HasPrefix(name, "append") {
+					continue
+				}
+				var g []string
+				ast.Inspect(fd.Body, func(n ast.Node) bool {
+					is, ok := n.(*ast.IfStmt)
+					if !ok || is.Else != nil || len(is.Body.List) == 0 {
+						return true
+					}
+					if br, ok := is.Body.List[len(is.Body.List)-1].(*ast.BranchStmt); ok && br.Tok == token.CONTINUE {
+						g = append(g, strings.ReplaceAll(types.ExprString(is.Cond), " ", ""))
+					}
+					return true
+				})
+				sort.Strings(g)
+				guards[name] = g
+				decls[name] = fd
+			}
+		}
+		var names []string
+		for n := range guards {
+			if strings.HasPrefix(n, "tight") {
+				names = append(names, n)
+			}
+		}
+		sort.Strings(names)
+		for _, t := range names {
+			a := "append" + strings.TrimPrefix(t, "tight")
+			if _, ok := guards[a]; !ok {
+				continue
+			}
+			pairs++
+			key := fmt.Sprintf("%s.%s=%s", rel, t, a)
+			if strings.Join(guards[t], " ; ") == strings.Join(guards[a], " ; ") {
+				rep.Discharge("K-omitguards", key, prog.Pos(decls[t].Pos()), fmt.Sprintf("%d skip conditions, equal", len(guards[t])))
+				continue
+			}
+			onlyT, onlyA := diffLines(guards[t], guards[a])
+			if acc, ok := omitGuardAccepted[key]; ok && strings.Join(onlyT, " | ") == acc[0] && strings.Join(onlyA, " | ") == acc[1] {
+				rep.Discharge("K-omitguards", key, prog.Pos(decls[t].Pos()), "accepted difference (read): "+acc[2])
+				continue
+			}
+			rep.Violate(Finding{Rule: "K-omitguards", Key: key, Pos: prog.Pos(decls[t].Pos()), Msg: fmt.Sprintf("%s and %s skip members under different conditions: only %s [%s]; only %s [%s]: the same value loses a member in one layout and keeps it in the other", t, a, t, strings.Join(onlyT, " | "), a, strings.Join(onlyA, " | "))})
+		}
+	}
+	rep.Eval(pairs)
+	if pairs < 4*len(rels) {
+		rep.Errorf("K-omitguards compared %d twin pairs (floor %d)", pairs, 4*len(rels))
+	}
+}
+
+// omitGuardAccepted: key -> {only in the compact twin, only in the indented twin, reason}.
+var omitGuardAccepted = map[string][3]string{}
